@@ -47,4 +47,40 @@ def collect : Nat → LimState → List Frame → List Frame
 /-- the iterator run to completion on the frames `L` with length hint `n` -/
 def limRun (N : Nat) (L : List Frame) (n : Nat) : List Frame := collect (L.length + 2) (limInit N n) L
 
+/-! ## `ConvertedStackIterD` (stack_converter.rs:199-262) as the state machine it is
+
+State: `pending_frame_handle` (initially the extra first frame) and `js_name_for_baseline_interpreter`;
+`inner` = the remaining frames of the second pass. One call of `next` hands out the pending frame if there is
+one, otherwise takes one frame from the inner iterator and, if a JS label frame is prepended, yields the
+label and parks the native frame in `pending_frame_handle`. `Lemmas/DepthIter.lean: csRun_eq` proves that
+pulling until the first `None` yields `extra ++ emitJs none infos`. -/
+
+structure CsState where
+  pending : Option Frame
+  jsName : Option JsName
+deriving Repr, DecidableEq
+
+def csNext (st : CsState) (inner : List Info) : Option Frame × CsState × List Info :=
+  match st.pending with
+  | some f => (some f, { st with pending := none }, inner)
+  | none =>
+    match inner with
+    | [] => (none, st, [])
+    | i :: rest =>
+      let r := jsStep st.jsName i.js
+      match r.1 with
+      | some (.nonSelfHosted s) => (some (.label s), { pending := some i.frame, jsName := r.2 }, rest)
+      | _ => (some i.frame, { pending := none, jsName := r.2 }, rest)
+
+def csCollect : Nat → CsState → List Info → List Frame
+  | 0, _, _ => []
+  | fuel + 1, st, inner =>
+    match csNext st inner with
+    | (none, _, _) => []
+    | (some f, st', inner') => f :: csCollect fuel st' inner'
+
+/-- the iterator run to completion: at most two frames per inner frame, plus the extra first frame -/
+def csRun (extra : Option Frame) (infos : List Info) : List Frame :=
+  csCollect (2 * infos.length + 2) { pending := extra, jsName := none } infos
+
 end Conv
